@@ -4,7 +4,7 @@
    dup_identifier_in_transaction); be_holds P be = the backend maps the identifier of every named node of P to that
    node's own document.  Text level (json text, expression strings, float repr) is outside the model. *)
 From Coq Require Import String List ZArith QArith Bool.
-Require Import QV.C10.Model QV.C10.Spec QV.C10.Iface QV.C10.Hist QV.C10.SpecHist QV.C10.Proofs QV.C10.Proofs_store QV.C10.Proofs_share QV.C10.Proofs_iface QV.C10.Proofs_guard QV.C10.SpecInl QV.C10.Proofs_guard2 QV.C10.Proofs_hist QV.C10.Witness QV.C10.Witness_hist.
+Require Import QV.C10.Model QV.C10.Spec QV.C10.Iface QV.C10.Hist QV.C10.SpecHist QV.C10.Proofs QV.C10.Proofs_store QV.C10.Proofs_share QV.C10.Proofs_iface QV.C10.Proofs_guard QV.C10.SpecInl QV.C10.Proofs_guard2 QV.C10.Proofs_hist QV.C10.Witness QV.C10.Witness_hist QV.C10.Dur QV.C10.Proofs_dur QV.C10.Tx.
 Import ListNotations.
 Open Scope string_scope.
 
@@ -219,3 +219,53 @@ Print Assumptions C10_inline_int_key_lost.
 Theorem C10_inline_int_key_example : own_cs inl_w = true /\ inl_cs inl_w = false.
 Proof. exact inl_w_ok. Qed.
 Print Assumptions C10_inline_int_key_example.
+
+(* ---- round 4: declared duration and order-sensitive fields ------------------------------------------------------------ *)
+(* the declared duration (Dur.v: a term over the serialised expressions, per class as in the code) of a template that is
+   equal up to object identity is the same term *)
+Theorem C10_duration_erase : forall p p', erase p' = erase p -> dur_of p' = dur_of p.
+Proof. exact dur_roundtrip. Qed.
+Print Assumptions C10_duration_erase.
+
+(* ... hence the template loaded back by a fresh storage declares the same duration, and it evaluates to the same value
+   under every table of atom values *)
+Theorem C10_storage_duration : forall P s' i, wf P = true -> consistent P -> pt_id P = Some i ->
+  store (empty_s []) P = Ok s' ->
+  exists p' st', load (length (nodes P)) (s_be s') fresh_l i = Ok (p', st') /\ erase p' = erase P /\
+                 dur_of p' = dur_of P /\
+                 forall tb, match dur_of P with
+                            | Ok d => match dur_of p' with Ok d' => deval tb d' = deval tb d | Err _ => False end
+                            | Err _ => True end.
+Proof. exact storage_duration. Qed.
+Print Assumptions C10_storage_duration.
+
+(* the sub-templates come back in the given order, position by position equal up to identity *)
+Theorem C10_storage_children_order : forall P s' i, wf P = true -> consistent P -> pt_id P = Some i ->
+  store (empty_s []) P = Ok s' ->
+  exists p' st', load (length (nodes P)) (s_be s') fresh_l i = Ok (p', st') /\
+                 map erase (children p') = map erase (children P).
+Proof. exact storage_children_order. Qed.
+Print Assumptions C10_storage_children_order.
+
+(* the order is observable (seed C10-5): the same two sub-templates in the other order give another stored document, another
+   template and another declared duration (t_y = 3, t_x = 4) *)
+Theorem C10_amc_order_observable :
+  dur_of amc_yx = Ok (DAtom (EStr "t_y")) /\ dur_of amc_xy = Ok (DAtom (EStr "t_x")) /\
+  deval [("t_y", 3#1); ("t_x", 4#1)] (DAtom (EStr "t_y")) = Some (3#1) /\
+  deval [("t_y", 3#1); ("t_x", 4#1)] (DAtom (EStr "t_x")) = Some (4#1) /\
+  erase amc_yx <> erase amc_xy /\ to_data amc_yx <> to_data amc_xy.
+Proof. exact amc_order_observable. Qed.
+Print Assumptions C10_amc_order_observable.
+
+(* ---- round 4: the transaction guard of repo commit a5bca40 (Tx.v) -------------------------------------------------------- *)
+(* the guarded operations (what the correspondence check runs) are the core operations whenever the guard does not fire ... *)
+Theorem C10_tx_guard_transparent : forall s key p, tx_reject s key p = false ->
+  overwrite_tx s key p = overwrite_as s key p /\ store_as_tx s key p = store_as s key p.
+Proof. intros s key p H. unfold store_as_tx, overwrite_tx. rewrite H. split; reflexivity. Qed.
+Print Assumptions C10_tx_guard_transparent.
+
+(* ... and the guard rejects the witness of the former finding dup_identifier_in_transaction (two objects, one identifier in
+   one transaction), on which the unguarded transaction of C10_storage_refuted_dup_identifier silently stored a different pulse *)
+Theorem C10_tx_guard_rejects_dup : store_as_tx (empty_s []) "s" dup_P = Err ERuntime /\ tx_reject (empty_s []) "s" ex_P = false.
+Proof. split; vm_compute; reflexivity. Qed.
+Print Assumptions C10_tx_guard_rejects_dup.
